@@ -70,36 +70,76 @@ func renameFieldKey(n *Node, from, to string) {
 	}
 }
 
-// deletions: all copies of n with exactly one array element or one non-field member removed.
-func deletions(n *Node) []*Node {
+// deletions: all copies of the document with exactly one unknown extra key (of the top-level
+// object or of an object standing for an inner struct), one element of a []struct value or one
+// entry of a map[string]struct value removed. Values of simple-kind fields (the atoms of the
+// value alphabet) are never cut into: [null,"x"] failing must not be "explained" by [null].
+func deletions(spec *StructSpec, doc *Node) []*Node {
 	var out []*Node
-	switch n.K {
-	case "arr":
-		for i := range n.A {
-			c := n.clone()
-			c.A = append(c.A[:i:i], c.A[i+1:]...)
+	// extras of this object
+	for i := range doc.O {
+		if !doc.O[i].F {
+			c := doc.clone()
+			c.O = append(c.O[:i:i], c.O[i+1:]...)
 			out = append(out, c)
 		}
-		for i := range n.A {
-			for _, sub := range deletions(n.A[i]) {
-				c := n.clone()
-				c.A[i] = sub
-				out = append(out, c)
+	}
+	for _, f := range spec.Fields {
+		if f.Inner == nil {
+			continue
+		}
+		if f.Kind == kEmbed {
+			continue // its members live in doc itself; extras handled above
+		}
+		idx := -1
+		for i := range doc.O {
+			if doc.O[i].F && doc.O[i].Key == f.Key() {
+				idx = i
 			}
 		}
-	case "obj":
-		for i := range n.O {
-			if !n.O[i].F {
-				c := n.clone()
+		if idx < 0 {
+			continue
+		}
+		v := doc.O[idx].V
+		with := func(nv *Node) *Node {
+			c := doc.clone()
+			c.O[idx].V = nv
+			return c
+		}
+		switch {
+		case f.Kind == kStruct && v.K == "obj":
+			for _, sub := range deletions(f.Inner, v) {
+				out = append(out, with(sub))
+			}
+		case f.Kind == kStructSlice && v.K == "arr":
+			for i := range v.A {
+				c := v.clone()
+				c.A = append(c.A[:i:i], c.A[i+1:]...)
+				out = append(out, with(c))
+			}
+			for i := range v.A {
+				if v.A[i].K == "obj" {
+					for _, sub := range deletions(f.Inner, v.A[i]) {
+						c := v.clone()
+						c.A[i] = sub
+						out = append(out, with(c))
+					}
+				}
+			}
+		case f.Kind == kStructMap && v.K == "obj":
+			for i := range v.O {
+				c := v.clone()
 				c.O = append(c.O[:i:i], c.O[i+1:]...)
-				out = append(out, c)
+				out = append(out, with(c))
 			}
-		}
-		for i := range n.O {
-			for _, sub := range deletions(n.O[i].V) {
-				c := n.clone()
-				c.O[i].V = sub
-				out = append(out, c)
+			for i := range v.O {
+				if v.O[i].V.K == "obj" {
+					for _, sub := range deletions(f.Inner, v.O[i].V) {
+						c := v.clone()
+						c.O[i].V = sub
+						out = append(out, with(c))
+					}
+				}
 			}
 		}
 	}
@@ -164,8 +204,10 @@ func candidates(c *Case) []*Case {
 			mk(s, d, c.Variant)
 		}
 	}
-	// 5. delete array elements / extra keys / map entries
-	for _, d := range deletions(c.Doc) {
+	// 5. delete array elements / extra keys / map entries (must keep the signature: several
+	// elements of one value are usually one cause, not independent ones)
+	strict = true
+	for _, d := range deletions(c.Spec, c.Doc) {
 		mk(c.Spec, d, c.Variant)
 	}
 	// 5b. replace the value of scalar-kind fields by the plain valid value, composite kinds by
@@ -250,9 +292,9 @@ func candidates(c *Case) []*Case {
 			}
 		}
 	}
-	// any kind -> int (the simplest kind); keeps the document, so it only survives when the
-	// failure does not depend on the kind
-	eachField(func(f *FieldSpec, top bool, pos int) bool {
+	// any kind -> int (the simplest kind), once keeping the document (survives only when the
+	// failure does not depend on the kind) and once with the field's value set to 7
+	toInt := func(f *FieldSpec, top bool, pos int) bool {
 		if f.Kind == kInt {
 			return false
 		}
@@ -265,7 +307,14 @@ func candidates(c *Case) []*Case {
 			f.Tag = f.Go // an embedded field's members are not addressed by this key anyway
 		}
 		return true
-	}, nil)
+	}
+	eachField(toInt, nil)
+	eachField(toInt, func(d *Node, before, after FieldSpec) {
+		if before.Kind != kEmbed {
+			setFieldValues(d, before.Key(), num("7"))
+			renameFieldKey(d, before.Key(), after.Key())
+		}
+	})
 	eachField(func(f *FieldSpec, top bool, pos int) bool {
 		if f.Opt != "" {
 			f.Opt = ""
@@ -301,6 +350,24 @@ func candidates(c *Case) []*Case {
 		mk(c.Spec, d, c.Variant)
 	}
 	return out
+}
+
+// setFieldValues sets the value of every struct-field member named key, at any depth.
+func setFieldValues(n *Node, key string, v *Node) {
+	switch n.K {
+	case "arr":
+		for _, e := range n.A {
+			setFieldValues(e, key, v)
+		}
+	case "obj":
+		for i := range n.O {
+			if n.O[i].F && n.O[i].Key == key {
+				n.O[i].V = v
+			} else {
+				setFieldValues(n.O[i].V, key, v)
+			}
+		}
+	}
 }
 
 func setMember(o *Node, key string, v *Node) {
@@ -401,7 +468,7 @@ func shrink(c *Case) *Case {
 			if debugShrink {
 				println("cand", cand.Spec.ID(), renderJSON(cand.Doc), cand.Variant, cand.strict, "->", sigOf(cand), "cur", cur.Sig)
 			}
-			if sig := sigOf(cand); sig != "" && (!cand.strict || sig == cur.Sig) {
+			if sig := sigOf(cand); sig != "" && (!cand.strict || sig == cur.Sig || cur.Check == "case") {
 				cand.Sig = sig
 				cur = cand
 				progressed = true
